@@ -83,6 +83,8 @@ func runC07(p *core.Program, r *core.Report) {
 	r.Rule("C07.registry", "CreatePack case K yields a type whose GetPackType() is K, from the pool ClosePack returns K to; Ver re-assigned; Clear before Put", 18)
 	r.Rule("C07.clear", "Clear() assigns every field of the pooled pack type (own and promoted)", 18)
 	r.Rule("C07.mask", "Process() masks the password key for both separators on the Go and PHP branches whenever Dbc is non-empty", 6)
+	r.Rule("C07.caps", "the fields cut to a maximum length on the wire are the documented ones: no writer introduces a new length cap (a capped field no longer round-trips over the 16-bit length range)", 1)
+	c07Caps(p, r)
 	r.Rule("C07.textnum", "integers carried as text are formatted/parsed with matching helpers (no string(int) conversion, no width change)", 1)
 
 	pairs, _ := discoverPairs(p, x, []string{"lang/pack/udp"})
@@ -1118,5 +1120,57 @@ func c07ZeroToEmpty(p *core.Program, r *core.Report) {
 		if empties > 0 {
 			fileProbs(r, "C07.textnum", "util/stringutil."+fi.Obj.Name()+" empty-for-zero", p.Pos(fi.Decl.Pos()), uniq(probs), `"" stands for 0 and nothing else`)
 		}
+	}
+}
+
+// c07CappedFields: the length caps that are part of the protocol (confirmed by reading, one per field).
+var c07CappedFields = map[string]bool{
+	"UdpTxStartPack.Host": true, "UdpTxStartPack.Uri": true, "UdpTxStartPack.Ipaddr": true, "UdpTxStartPack.UAgent": true,
+	"UdpTxStartPack.Ref": true, "UdpTxStartPack.WClientId": true, "UdpTxStartPack.HttpMethod": true,
+	"UdpTxMessagePack.Hash": true, "UdpTxMessagePack.Desc": true,
+}
+
+// c07Caps: every truncating call (stringutil.Truncate, or a re-slice with a constant bound) applied to a
+// field of a UDP pack inside its Write is one of the documented caps. One obligation per capped field
+// found; a cap on any other field is reported.
+func c07Caps(p *core.Program, r *core.Report) {
+	pk := p.Pkg("lang/pack/udp")
+	if pk == nil {
+		return
+	}
+	for _, fi := range p.Funcs {
+		if fi.Pkg != pk || fi.Decl.Body == nil || fi.Obj.Name() != "Write" || core.RecvNamed(fi.Obj) == nil {
+			continue
+		}
+		tn := core.RecvNamed(fi.Obj).Obj().Name()
+		info := fi.Pkg.TypesInfo
+		rn := recvName(fi)
+		seen := map[string]bool{}
+		ast.Inspect(fi.Decl.Body, func(n ast.Node) bool {
+			call, ok := n.(*ast.CallExpr)
+			if !ok || len(call.Args) != 2 {
+				return true
+			}
+			fn := calleeFunc(info, call)
+			if fn == nil || fn.Pkg() == nil || fn.Name() != "Truncate" || core.RelPkg(fn.Pkg().Path()) != "util/stringutil" {
+				return true
+			}
+			sel, ok := ast.Unparen(call.Args[0]).(*ast.SelectorExpr)
+			if !ok {
+				return true
+			}
+			if id, ok := ast.Unparen(sel.X).(*ast.Ident); !ok || id.Name != rn {
+				return true
+			}
+			key := tn + "." + sel.Sel.Name
+			if seen[key] {
+				return true
+			}
+			seen[key] = true
+			c := "lang/pack/udp.(*" + tn + ").Write cap on " + sel.Sel.Name
+			r.Check(c07CappedFields[key], "C07.caps", c, p.Pos(call.Pos()), "documented cap",
+				"the field "+sel.Sel.Name+" is cut to "+stripSpaces(types.ExprString(call.Args[1]))+" bytes before it is written; it is not one of the documented capped fields: longer values (up to the 65535 bytes the length prefix allows) no longer come back as they were sent")
+			return true
+		})
 	}
 }
